@@ -27,6 +27,7 @@ type recStream struct {
 	seq   int64
 	log   []handout
 	cache map[int64][32]byte
+	maxRd int // >0: deliver at most this many bytes per Read (a source may legally return short reads)
 }
 type handout struct {
 	off, n, seq int64
@@ -54,6 +55,9 @@ func (s *recStream) byteAt(pos int64) byte {
 func (s *recStream) Read(p []byte) (int, error) {
 	s.mu.Lock()
 	defer s.mu.Unlock()
+	if s.maxRd > 0 && len(p) > s.maxRd {
+		p = p[:s.maxRd]
+	}
 	for i := range p {
 		p[i] = s.byteAt(s.next + int64(i))
 	}
@@ -83,11 +87,12 @@ type c08History struct {
 	Goroutines int    `json:"goroutines"`
 	Calls      int    `json:"calls_per_goroutine"`
 	Procs      int    `json:"gomaxprocs"`
+	MaxRead    int    `json:"max_bytes_per_read,omitempty"`
 }
 
 func runRSHistory(c *Ctx, h c08History) {
 	r := c.R
-	st := &recStream{seed: h.Seed, mode: h.Mode, cache: map[int64][32]byte{}}
+	st := &recStream{seed: h.Seed, mode: h.Mode, cache: map[int64][32]byte{}, maxRd: h.MaxRead}
 	saved := crand.Reader
 	crand.Reader = st
 	calls := make([][]rsCall, h.Goroutines)
@@ -252,6 +257,7 @@ func c08Concurrent(c *Ctx) []c08History {
 		}
 	}
 	hs = append(hs, c08History{Seed: rng.U64(), Mode: 1, Goroutines: 8, Calls: 100})
+	hs = append(hs, c08History{Seed: rng.U64(), Mode: 0, Goroutines: 8, Calls: 200, MaxRead: 13})
 	return hs
 }
 
@@ -271,6 +277,10 @@ func init() {
 			var hs []c08History
 			hs = append(hs, c08History{Seed: rng.U64(), Mode: 0, Goroutines: 1, Calls: c.N(1000, 5000), Procs: 0})
 			hs = append(hs, c08History{Seed: rng.U64(), Mode: 1, Goroutines: 1, Calls: 200}, c08History{Seed: rng.U64(), Mode: 2, Goroutines: 1, Calls: 200})
+			for _, mr := range []int{1, 7, 16, 48, 63} {
+				hs = append(hs, c08History{Seed: rng.U64(), Mode: 0, Goroutines: 1, Calls: 120, MaxRead: mr})
+			}
+			hs = append(hs, c08History{Seed: rng.U64(), Mode: 2, Goroutines: 1, Calls: 60, MaxRead: 5})
 			for _, h := range hs {
 				runRSHistory(c, h)
 			}
